@@ -782,6 +782,9 @@ CO_ERR COSdoInitUploadBlock(CO_SDO *srv)
     srv->Blk.LastValid = 0xFF;
     srv->Blk.Len       = srv->Blk.Size;
     srv->Blk.SegOk     = 0;
+    srv->Blk.SegCnt    = 0;
+    srv->Buf.Cur       = srv->Buf.Start;
+    srv->Buf.Num       = 0;
 
     if (size <= 4) {
         /* basic type entry: reset object offset only */
@@ -804,65 +807,56 @@ CO_ERR COSdoUploadBlock(CO_SDO *srv)
     CO_ERR   result = CO_ERR_SDO_SILENT;
     CO_ERR   err;
     uint32_t size;
-    uint32_t num = 0;
+    uint32_t num;
+    uint32_t sent;
+    uint32_t byteOk;
     uint32_t txNum;
-    uint32_t byteOk = 0;
     uint8_t *txBuf;
     uint8_t  finished =  0;
     uint8_t  seg;
     uint8_t  len;
     uint8_t  i;
 
-    srv->Buf.Cur = srv->Buf.Start;
-    srv->Buf.Num = 0u;
-    num          = srv->Blk.SegNum * 7u;
-
-    if (srv->Blk.State == BLK_REPEAT) {
-        /* calculate number of bytes we need to repeat */
-        byteOk        = srv->Blk.SegOk * 7u;
-        num           = srv->Blk.SegCnt * 7u;
-        num          -= byteOk;
-        srv->Buf.Num  = num;
-        srv->Blk.Len += num;
-        if (srv->Blk.LastValid < 7) {
-            srv->Blk.Len -= (7u - srv->Blk.LastValid);
-        }
-        if (srv->Blk.SegOk > 0) {
-            /* remove successful transfered bytes at the front */
-            srv->Buf.Cur  = srv->Buf.Start;
-            txBuf         = srv->Buf.Start + byteOk;
-            txNum         = num;
-            while(txNum > 0) {
-                *srv->Buf.Cur = *txBuf;
-                srv->Buf.Cur++;
-                txBuf++;
-                txNum--;
-            }
-        } else {
-            /* repeat whole buffer (no remaining bytes needed) */
-            num = 0u;
-        }
+    /* calculate number of bytes sent with the previous block */
+    sent = srv->Blk.SegCnt * 7u;
+    if ((srv->Blk.SegCnt > 0u) && (srv->Blk.LastValid < 7u)) {
+        sent -= (7u - srv->Blk.LastValid);
     }
 
-    if (num > 0u) {
-        if (srv->Blk.Size > num) {
-            /* fill remaining buffer with data from object entry */
+    /* calculate number of bytes the client has acknowledged */
+    byteOk = sent;
+    if (srv->Blk.State == BLK_REPEAT) {
+        byteOk        = srv->Blk.SegOk * 7u;
+        srv->Blk.Len += (sent - byteOk);
+    }
+
+    /* remove acknowledged bytes at the front of the buffer */
+    txNum         = srv->Buf.Num - byteOk;
+    srv->Buf.Num  = txNum;
+    srv->Buf.Cur  = srv->Buf.Start;
+    txBuf         = srv->Buf.Start + byteOk;
+    while ((byteOk > 0u) && (txNum > 0u)) {
+        *srv->Buf.Cur = *txBuf;
+        srv->Buf.Cur++;
+        txBuf++;
+        txNum--;
+    }
+    srv->Buf.Cur = srv->Buf.Start + srv->Buf.Num;
+
+    /* fill remaining buffer with data from object entry */
+    num = srv->Blk.SegNum * 7u;
+    if (num > srv->Buf.Num) {
+        num -= srv->Buf.Num;
+        if (num > srv->Blk.Size) {
+            num = srv->Blk.Size;
+        }
+        if (num > 0u) {
             err = COObjRdBufCont(srv->Obj, srv->Node, srv->Buf.Cur, num);
             if (err != CO_ERR_NONE) {
                 srv->Node->Error = CO_ERR_SDO_READ;
             }
             srv->Blk.Size -= num;
-        } else {
-            /* read remaining data from object entry in buffer */
-            if (srv->Blk.Size <= 4) {
-                err = COObjRdBufCont(srv->Obj, srv->Node, srv->Buf.Cur, srv->Blk.Size);
-            } else {
-                err = COObjRdBufCont(srv->Obj, srv->Node, srv->Buf.Cur, num);
-            } 
-            if (err != CO_ERR_NONE) {
-                srv->Node->Error = CO_ERR_SDO_READ;
-            }
-            srv->Blk.Size = 0;
+            srv->Buf.Num  += num;
         }
     }
 
@@ -898,7 +892,6 @@ CO_ERR COSdoUploadBlock(CO_SDO *srv)
         for (i = 0; i < len; i++) {
             CO_SET_BYTE(srv->Frm, *(srv->Buf.Cur), 1+i);
             srv->Buf.Cur++;
-            srv->Buf.Num--;
         }
         for (i = (uint8_t)len; i < 7; i++) {
             CO_SET_BYTE(srv->Frm, 0, 1 + i);
@@ -922,9 +915,17 @@ CO_ERR COSdoAckUploadBlock(CO_SDO *srv)
         COSdoAbortReq(srv);
         return (CO_ERR_SDO_ABORT);
     } else if (seq < srv->Blk.SegCnt) {
-        srv->Blk.State = BLK_REPEAT;
-        srv->Blk.SegOk = seq;
-        result         = COSdoUploadBlock(srv);
+        val = CO_GET_BYTE(srv->Frm, 2);
+        if ((val < 0x01) ||
+            (val > 0x7F)) {
+            COSdoAbort(srv, CO_SDO_ERR_BLK_SIZE);
+            COSdoAbortReq(srv);
+            return (CO_ERR_SDO_ABORT);
+        }
+        srv->Blk.SegNum = val;
+        srv->Blk.State  = BLK_REPEAT;
+        srv->Blk.SegOk  = seq;
+        result          = COSdoUploadBlock(srv);
     } else if (srv->Blk.Len == 0) {
         if (srv->Blk.LastValid <= 7) {
             val = (uint8_t)srv->Blk.LastValid;
